@@ -118,6 +118,9 @@ impl Vm {
         let lambda = self.heap.put(lambda);
         self.ip.0 = lambda.as_ptr().unwrap();
         self.ip.1 = 0;
+        // A prepared evaluation need not ever be run: what the one before it left
+        // behind is garbage from here on, and this is the only place to collect it.
+        self.run_gc();
         Ok(())
     }
 
